@@ -67,7 +67,7 @@ func runC19(seed int64, tier string, sc *Script) map[string]any {
 			for _, cfg := range []string{"none", "valid", "validempty", "invalid", "emptytype"} {
 				for _, layers := range []int{0, 2} {
 					for _, subject := range []int{0, 1} {
-						for _, created := range []string{"absent", "valid", "malformed"} {
+						for _, created := range []string{"absent", "valid", "malformed", "empty"} {
 							for _, target := range []string{"ros-present", "ros-absent", "pusher"} {
 								artifactType := map[string]string{"empty": "", "valid": "application/vnd.verif.type", "invalid": "not a media type"}[at]
 								opts := oras.PackManifestOptions{ConfigAnnotations: map[string]string{"cfg": "ann"}}
@@ -101,6 +101,8 @@ func runC19(seed int64, tier string, sc *Script) map[string]any {
 									opts.ManifestAnnotations[ocispec.AnnotationCreated] = "2001-02-03T04:05:06Z"
 								case "malformed":
 									opts.ManifestAnnotations[ocispec.AnnotationCreated] = "yesterday"
+								case "empty":
+									opts.ManifestAnnotations[ocispec.AnnotationCreated] = ""
 								}
 								version := oras.PackManifestVersion1_1
 								if ver == "10" {
